@@ -87,7 +87,8 @@ def check_string(s, names, mode, win, out, stream, converse=False):
             prefix_only = True
         elif s[1:2] == ':' and s[0].isalpha():
             prefix_only = len(s) <= 3
-    icase = ('IGNORECASE' in names) or win
+    case_flag = 'CASE' in names
+    icase = (('IGNORECASE' in names) or win) and not case_flag
     fl = flagval(names, mode, win)
     if converse:
         pat = s
@@ -126,6 +127,8 @@ def check_string(s, names, mode, win, out, stream, converse=False):
                     continue
                 if mode == 'gl' and only_seps(c, win):
                     continue
+                if case_flag and win and mode == 'gl' and c != s and c.lower() == s.lower():
+                    continue      # CASE under Windows rules: the drive / UNC part stays case-insensitive, the rest does not
                 if prefix_only and eq:
                     continue
                 if mode == 'gl' and win and eq and c[:2] != s[:2] and (c[0] in '/\\' or c[1:2] == ':'):
@@ -161,6 +164,8 @@ def shards(tier, seed, scale=1.0):
         out.append({'name': 'hyp-%d' % s, 'kind': 'hyp', 'seed': seed * 1000 + s, 'n': max(10, int(hyp_n * scale))})
     for s in range(4):
         out.append({'name': 'fs-%d' % s, 'kind': 'fs', 'shard': s, 'of': 4})
+    for s in range(2):
+        out.append({'name': 'shapes-%d' % s, 'kind': 'shapes', 'shard': s, 'of': 2})
     return out
 
 
@@ -168,6 +173,8 @@ def run_shard(desc):
     k = desc['kind']
     if k == 'enum':
         return run_enum(desc)
+    if k == 'shapes':
+        return run_shapes(desc)
     if k == 'allflags':
         return run_allflags(desc)
     if k == 'hyp':
@@ -227,6 +234,32 @@ WIN_SHAPES = ['c:/', 'c:', 'C:/a', 'c:\\a', '//host/share/', '//host/share/a', '
               '//./c:/a', '//h{a,b}/s|t/a', '//?/GLOBAL/UNC/h/s/a', '//h[a]/s*/x', 'c:a', '/a', '//a']
 
 
+SHAPES = WIN_SHAPES + ['//?/UNC/h[a]/s*/x', '//./UNC/s?v/sh{a,b}/f', '//?/GLOBAL/UNC/h*/s[x]/a', '//?/unc/h*/s?/a', '//?/Unc/h(a)/s|t/a', '//./Global/unc/h!/-s/~',
+                       '//?/C:/a*', '//./c:/[a]', 'C:/*', 'c:/a?', '//HOST/SH*RE/a', '//h/s/@(a)', '//?/UNC/h/s/!(a)', '\\\\?\\UNC\\h*\\s\\a', 'c:\\[a]',
+                       '//?/GLOBAL/unc/h/s*/a', '//?/global/UNC/h?/s/a', '//host/share/a*', '//?/UNC/h/s', '//?/c:']
+SHAPE_FLAGS = ['CASE', 'IGNORECASE', 'EXTMATCH', 'BRACE', 'SPLIT', 'GLOBSTAR', 'NEGATE']
+
+
+def run_shapes(desc):
+    """Drive / UNC / device-namespace spellings with metacharacters in every part, under Windows rules in glob mode, for every subset
+    of seven flags including CASE: the escaped string matches itself and nothing else; the raw string, when is_magic() says it
+    is not magic, does too."""
+    out = Outcome()
+    out.exhaustive = True
+    s, S = desc['shard'], desc['of']
+    idx = 0
+    for shape in SHAPES:
+        for i in range(1 << len(SHAPE_FLAGS)):
+            idx += 1
+            if idx % S != s:
+                continue
+            names = [n for j, n in enumerate(SHAPE_FLAGS) if i >> j & 1]
+            check_string(shape, names, 'gl', True, out, 'shapes')
+            check_string(shape, names, 'gl', True, out, 'shapes', converse=True)
+    out.sample({'stream': 'shapes', 'shapes': len(SHAPES), 'flag_subsets': 1 << len(SHAPE_FLAGS)})
+    return out
+
+
 def run_hyp(desc):
     from hypothesis import given, strategies as st, seed
     out = Outcome()
@@ -237,7 +270,7 @@ def run_hyp(desc):
 
     @seed(desc['seed'])
     @util.hyp_settings(desc['n'], shrink=False)
-    @given(text, st.lists(st.sampled_from(FLAG_NAMES), unique=True, max_size=12).map(sorted), st.sampled_from(['fn', 'gl']), st.booleans(),
+    @given(text, st.lists(st.sampled_from(FLAG_NAMES + ['CASE']), unique=True, max_size=12).map(sorted), st.sampled_from(['fn', 'gl']), st.booleans(),
            st.booleans())
     def test(s, names, mode, win, converse):
         out.stats['hyp_cases'] += 1
